@@ -850,12 +850,51 @@ theorem C19_buffered_subscriber_counterexample :
     ((replayStrict [0, 1] bl).bind (fun v => replayStrict v [])) = some [0, 1, 4, 5] := by
   decide
 
+/-! ### a block is announced as disconnected only after it was removed -/
+
+theorem rollBack_len_le (k fuel : Nat) (log : List Nat) (fst : Nat) (ft : Node) (out : List Ntfn) :
+    (rollBack k fuel log fst ft out).1.length ≤ log.length := by
+  induction fuel generalizing log fst ft out with
+  | zero => simp [rollBack]
+  | succ n ih =>
+    by_cases hgt : tipHeight log > k
+    · rw [C19_disconnected_step k n log fst ft out hgt]
+      have := ih log.dropLast (if tipHeight log ≤ fst then tipHeight log - 1 else fst)
+        (if tipHeight log ≤ fst then ⟨tipId log.dropLast, tipHeight log - 1⟩ else ft)
+        (out ++ [.disc (tipId log) (tipHeight log) (tipId log.dropLast)])
+      simp at this; omega
+    · simp [rollBack, hgt]
+
+/-- **Remove, then notify - every rollback**: each disconnected event of `rollBackToHeight` is for a
+height that the block header store no longer reaches when the rollback is over, and (fold
+invariant) was emitted when the store had already been cut below it. -/
+theorem C19_disconnected_after_removal (k fuel : Nat) (log : List Nat) (fst : Nat) (ft : Node) (e : Ntfn)
+    (he : e ∈ (rollBack k fuel log fst ft []).2.2.2) :
+    ∃ id h nt, e = .disc id h nt ∧ (rollBack k fuel log fst ft []).1.length ≤ h ∧ h < log.length := by
+  induction fuel generalizing log fst ft with
+  | zero => simp [rollBack] at he
+  | succ n ih =>
+    by_cases hgt : tipHeight log > k
+    · rw [C19_disconnected_step k n log fst ft [] hgt, rollBack_acc] at he ⊢
+      simp only [List.nil_append, List.singleton_append, List.mem_cons] at he ⊢
+      have hth : tipHeight log = log.length - 1 := rfl
+      have hl2 : 2 ≤ log.length := by omega
+      rcases he with rfl | he
+      · refine ⟨_, _, _, rfl, ?_, by omega⟩
+        have := rollBack_len_le k n log.dropLast (if tipHeight log ≤ fst then tipHeight log - 1 else fst)
+          (if tipHeight log ≤ fst then ⟨tipId log.dropLast, tipHeight log - 1⟩ else ft) []
+        simp at this; omega
+      · obtain ⟨id, h, nt, e1, e2, e3⟩ := ih log.dropLast _ _ he
+        exact ⟨id, h, nt, e1, e2, by simp at e3; omega⟩
+    · simp [rollBack, hgt] at he
+
 /-- the statement order regenerated from blockmanager.go on this run: `writeCFHeadersMsg` writes the
 store, then raises `filterHeaderTip(+Hash)` under its mutex, then notifies; `rollBackToHeight`
 lowers the in-memory tip with the store; `blockNtfnChan` is made without a capacity (rendezvous) -/
 theorem C19_source_facts :
     Gen.BlockMgr.cfWriteBeforeNotify = true ∧ Gen.BlockMgr.cfTipBeforeNotify = true ∧
-    Gen.BlockMgr.rollbackLowersFilterTip = true ∧ Gen.BlockMgr.blockNtfnChanUnbuffered = true := by decide
+    Gen.BlockMgr.rollbackLowersFilterTip = true ∧ Gen.BlockMgr.blockNtfnChanUnbuffered = true ∧
+    Gen.BlockMgr.rollbackRemovesBeforeNotify = true := by decide
 
 /-! Non-vacuity -/
 example : (cfWrite { log := [0, 1, 2, 3] } 2 2 true).2.ntf = [.conn 1 1 2, .conn 2 2 2] := by decide
